@@ -241,7 +241,7 @@ package argmapper
 //@ ghost vsPart(vs *ValueSet, T reflect.Type, n int) bool = vsP8(vs, T, n) && vsP0(vs, T, n) && vsP1(vs, T, n) && vsP2(vs, T, n) && vsP3(vs, T, n) && vsP4(vs, T, n) && vsP5(vs, T, n) && vsP6(vs, T, n) && vsP7(vs, T, n)
 //@ ghost vsOK(vs *ValueSet, T reflect.Type) bool = vsPart(vs, T, numField(T))
 
-//@ ghost vsKept() bool = kept(ValueSet, Value, valueInternal, []*Value, map[string]*Value, map[reflect.Type]*Value, map[string]string, []string, reflect.StructField)
+//@ ghost vsKept() bool = kept(ValueSet, Value, valueInternal, []*Value, map[string]*Value, map[reflect.Type]*Value, map[string]string, []string, []interface{}, reflect.StructField)
 
 //@ func newValueSetFromStruct
 //@   requires typ != nil
